@@ -45,7 +45,7 @@ class Judge:
         self.kinds[(op[0] if op[0] != 'trial' else op[2], out)] += 1
         def fail(expected, got, note):
             fl = getattr(c, '_verif_float', False)
-            self.ctx.fail('HighJumpCompetition', H.fmt_ops(hist) + (['(bar heights passed as float)'] if fl else []), expected, got, note=note + (' [float heights]' if fl else ''), replay_py=H.replay_py(hist, fl))
+            self.ctx.fail('HighJumpCompetition', H.fmt_ops(hist) + (['(bar heights passed as float)'] if fl else []), expected, got, note=note + (' [float heights]' if fl else ''), replay_py=H.replay_py(hist, fl, getattr(c, '_verif_scale', 100)))
         if out != 'ok' and after != before:
             fail('a refused call leaves every observable unchanged', 'before: %s / after: %s' % (before, after), 'refusal not atomic')
         if out not in ('ok', 'rule') and not (out == 'key' and want is None):
@@ -113,15 +113,16 @@ def run(ctx):
     rng = ctx.rng
     nwalks = 1500 if ctx.quick() else 40000
     for w in range(nwalks):
-        c = H.new_comp(athlib, float_heights=(w % 3 == 1)); ref = H.Ref(); ops = []
+        mm = (w % 7 == 3)                    # millimetre heights (a converted imperial mark): the ops carry thousandths
+        c = H.new_comp(athlib, float_heights=(w % 3 == 1), scale=1000 if mm else 100); ref = H.Ref(); ops = []
         lines.append('hj\tnew'); expect.append('new'); meta.append(None)
-        nb = rng.randint(1, 4); h = rng.choice([100, 100, 180, 200, 229, 50])
+        nb = rng.randint(1, 4); h = rng.choice([100, 100, 180, 200, 229, 50]) * (10 if mm else 1)
         for i in range(rng.randint(5, 60)):
             x = rng.random()
             if not c.heights and x < 0.5 and len(c.jumpers) < nb: op = ('add', len(c.jumpers) + 1 if (w % 2 == 0 or rng.random() < 0.7) else 0)
             elif x < 0.06: op = ('add', rng.randint(0 if w % 2 else 1, nb + 1))          # bib 0 = entered without a bib (default '0')
             elif x < 0.22:
-                dlt = rng.choice([3, 2, 5, 1, 1, 0, -2, -3]) if rng.random() < 0.9 else -h
+                dlt = (rng.choice([4, 1, 2, 5, 9, 10, 13, 30, 0, -1, -3, -10]) if mm else rng.choice([3, 2, 5, 1, 1, 0, -2, -3])) if rng.random() < 0.9 else -h
                 op = ('bar', h + dlt)
             else:
                 op = ('trial', rng.randint(1, nb + (1 if rng.random() < 0.03 else 0)), rng.choice('oxxxxpr' if rng.random() < 0.75 else 'ooxpr'))
@@ -131,6 +132,26 @@ def run(ctx):
             lines.append(H.op_line(op)); expect.append(line); meta.append((list(ops), op))
             ops.append(op)
             if out == 'ok' and op[0] == 'bar': h = op[1]
+        # another way in: the competition rebuilt from its own action log must be the same competition, and answer the
+        # next calls in the same way
+        if w % 2 == 0 and not mm:
+            try:
+                c2 = c.from_actions(); c2._verif_float = c._verif_float; c2._verif_scale = c._verif_scale
+                s1, s2 = H.snap(c), H.snap(c2)
+                if s1 != s2:
+                    ctx.fail('HighJumpCompetition.from_actions', H.fmt_ops(ops), s1, s2, note='the competition rebuilt from its action log differs',
+                             replay_py=H.replay_py(ops, c._verif_float) + '\nc2 = c.from_actions()\nresult = (result, [(j.bib, j.attempts_by_height) for j in c2.jumpers])')
+                else:
+                    for _ in range(4):
+                        op = ('trial', rng.randint(1, max(1, len(c.jumpers))), rng.choice('oxpr')) if rng.random() < 0.8 else ('bar', h + rng.choice([3, 0, -2]))
+                        o1 = H.apply_op(athlib, c, op); o2 = H.apply_op(athlib, c2, op); ops.append(op)
+                        if (o1, H.snap(c)) != (o2, H.snap(c2)):
+                            ctx.fail('HighJumpCompetition.from_actions', H.fmt_ops(ops), o1 + ' / ' + H.snap(c), o2 + ' / ' + H.snap(c2),
+                                     note='a call is answered differently by the competition rebuilt from the action log', replay_py=H.replay_py(ops, c._verif_float))
+                            break
+            except Exception as e:
+                ctx.fail('HighJumpCompetition.from_actions', H.fmt_ops(ops), 'the same competition', '%s: %s' % (type(e).__name__, e), note='rebuilding from the action log raised',
+                         replay_py=H.replay_py(ops, c._verif_float) + '\nresult = c.from_actions().state')
         if w < 3:
             ctx.sample({'walk': H.fmt_ops(ops), 'final_state': c.state})
     ctx.stats['walks'] = nwalks
